@@ -230,6 +230,8 @@ func checkC18(c *km.Ctx) {
 				ok, how = true, "status line with numeric prefix (\"%d %s %s\")"
 			case derivesFromCertMaterial(body, 0):
 				ok, how = true, "server-produced key/certificate material"
+			case bodyParamIsCertMaterial(c, fn, body):
+				ok, how = true, "a writer helper: every caller hands it server-produced key/certificate material or constant text"
 			default:
 				how = "unclassified body " + clipS(km.ValStr(body), 100)
 			}
@@ -304,6 +306,8 @@ func derivesFromCertMaterial(v ssa.Value, depth int) bool {
 		switch n {
 		case "encoding/pem.EncodeToMemory", "golang.org/x/crypto/ssh.MarshalAuthorizedKey", certgenPkg + ".GenSSHCertFileString", "encoding/json.Marshal", "encoding/json.MarshalIndent":
 			return true
+		case "(*bytes.Buffer).Bytes", "(*bytes.Buffer).String":
+			return derivesFromCertMaterial(x.Common().Args[0], depth+1)
 		}
 		// module helper returning encoded material
 		if callee := km.StaticCallee(x.Common()); callee != nil && callee.Blocks != nil && strings.HasPrefix(callee.String(), "(*"+KMD) {
@@ -312,6 +316,9 @@ func derivesFromCertMaterial(v ssa.Value, depth int) bool {
 				if ret, ok := in.(*ssa.Return); ok {
 					rv := km.ReturnValues(ret)[0]
 					if cs, isC := km.ConstString(rv); isC && cs == "" {
+						return
+					}
+					if km.IsNilConst(rv) {
 						return
 					}
 					n++
@@ -385,4 +392,57 @@ func derivesFromCertMaterial(v ssa.Value, depth int) bool {
 		return derivesFromCertMaterial(x.X, depth+1)
 	}
 	return false
+}
+
+// bodyParamIsCertMaterial: the body written by a small writer helper is (derived from) one of its parameters,
+// and every call of the helper passes server-produced key / certificate material or constant text for it.
+func bodyParamIsCertMaterial(c *km.Ctx, fn *ssa.Function, body ssa.Value) bool {
+	var p *ssa.Parameter
+	v := km.Unwrap(body)
+	for i := 0; i < 4 && p == nil; i++ {
+		switch x := v.(type) {
+		case *ssa.Parameter:
+			p = x
+		case *ssa.Convert:
+			v = km.Unwrap(x.X)
+		case *ssa.Call:
+			// buffer.Bytes() / []byte(...) style wrappers around the parameter
+			if len(x.Common().Args) > 0 {
+				v = km.Unwrap(x.Common().Args[0])
+			} else {
+				return false
+			}
+		case *ssa.UnOp:
+			v = km.Unwrap(x.X)
+		default:
+			return false
+		}
+	}
+	if p == nil || p.Parent() != fn {
+		return false
+	}
+	idx := -1
+	for i, q := range fn.Params {
+		if q == p {
+			idx = i
+		}
+	}
+	sites := c.G.Callers[fn]
+	if idx < 0 || len(sites) == 0 {
+		return false
+	}
+	for _, cs := range sites {
+		ci, ok := cs.Instr.(ssa.CallInstruction)
+		if !ok {
+			return false
+		}
+		a := km.CallArgs(ci.Common())
+		if idx >= len(a) {
+			return false
+		}
+		if !isConstBytes(a[idx]) && !derivesFromCertMaterial(a[idx], 0) {
+			return false
+		}
+	}
+	return true
 }
